@@ -172,7 +172,10 @@ def gen_eq(rng, tier, mult):
                     ops.append("eq_del")
                     length = max(0, length - 1)
             elif k < 80:
-                ops.append("eq_get %d" % r.choice([0, max(0, length - 1), length, r.range(0, length + 2)]))
+                ops.append("eq_get %d" % r.choice([0, max(0, length - 1), length, r.range(0, length + 2), r.range(0, length + 2),
+                                                  # positions no queue can hold, up to SIZE_MAX: the bounds test must not wrap
+                                                  (1 << 64) - 1 - r.below(6), (1 << 64) - 1 - r.below(length + 40),
+                                                  (1 << 63) + r.below(3) - 1, (1 << 32) + r.below(length + 2)]))
             elif k < 84:
                 ops.append("eq_set %d %d" % (r.range(0, length + 1), r.below(256)))
             elif k < 87:
